@@ -202,6 +202,74 @@ def unpackable(t):
     return False
 
 
+# ---- CHECK_SIGNATURE: keys of the three curves with signatures made once with pytezos (`Key.generate` / `Key.sign`; the secret keys
+# are not kept) over the messages SIG_MSGS, plus a generic (`sig…`) signature of b'abc' per key --------------------------------
+SIG_MSGS = ['', '00', '616263', '000102030405060708090a0b0c0d0e0f101112131415161718191a1b1c1d1e1f', '050005', '78' * 200]
+SIG_KEYS = [
+    ('edpkuHyjad2vs9m2xtDyjiJF7Xfa5RecdU4gfYNzRZhqjQ59gjYzpk',
+     ['edsigtxdge6FHbHxp6J7mznGKPVRbGAzBhLxEW8FMv84t8ykQ3deWxJtFnZGtboAr2q5fQwr9zAQrGvuLJn19AaCLcdGprF9tnn',
+      'edsigtdUsfnz9UP8TibvL5yy8ZQpQo5vsRtk539Ma7W638eFjaVGwxyDnPqwek2AwshJBXkiP5t3kCh4nH4gvAyHymnRj7AGHuJ',
+      'edsigtb3yWsfzFGQ5U6nSTQRCcZwEkjqJg3R8xkjxsestoW4MJcFvXBxJbjVqwWVzCyWj2sqoBS1z1cpF7sYDGydDRMVfJAmbRX',
+      'edsigtzS2pkUDS9ThpKoQ22uh4yBHVHtTtSbgWvzquMPrn8KSpbW3k4q7SJr56rjR3mtArSQWPj18qmM14YFhwuht7YSDgTAcja',
+      'edsigtpepsNfPuVVKtr5bDmZGpEYXK1ktxwQ6G4ieSddE4PYASeSr7o9zBH6hAUDSa4oVrBYhQ1nofb613zCYJuXGzCTBGfyjME',
+      'edsigtoMdfhweig7zBSvFhcb9W1TBvLpCnWyYsr82RCqYatpWzQbxr5TzeP4ytonzh8XM5e9fCs7Yp5sgP3PagTAcgCzNDVRYQX'],
+     'sigREWPpT5yLD3Quo9KNa1fGeiyukNhQYYb4zE9JsuoA3PznKL2J3DWgFvtutC7WLNbLNBFvEdAzrUP5W1cqHFEJRZQhPcB4'),
+    ('sppk7art2y9zXhRTa9WBqd9TAbi6hbp8S4QzY8KCxgarWiHAV1oVqko',
+     ['spsig17yJa15qwSR8ATK6YeWmEMG1hYtbEcNLtwG1QC6S3YynqidzM9faKdAqEqJ2MZ3UjEHz6UHgMvWQ1sRVMG45diyJXq7BWv',
+      'spsig1D4vgjWj3kERUPFegTddpLppRKQeAwLBPsJJPW5XdXnmwDJqd5pgu1ZUu58pQT2i9rUJvTNvkmH39odjtKt5w2Y2nxhwP2',
+      'spsig1TU6ftFnc1jRZUNrUChXp6kCphF3YY6DdiDt1JL3rtjTEmN6j6RsEziUX4uWYZbEQojoCJDxXDdsjiKqgPjUMauTfQqeS1',
+      'spsig1YfyXk18qvffXXYCKH1n5xpD7qPEfAiJX5cpoH7cfw5B27ep34FCLNW2m4G1DXJHNeDnNV9tU2ZY5GnXXfwMGGRoEQbXRj',
+      'spsig1WV7kKJSJAPDbk4kwaKxTwhzwEqDsbyWSDeDZwqV44iDbVgpzNLkwfXUyLjE5wigPQt9wjCZHQvmowKpxHfsY8mZchFd6G',
+      'spsig1VZ1eB4zg9j8CZy6wbC7Kw8mgpqD3xDFLzvUDyV7R2poGnkVrfJWm7rdGzCSFNggUJCSJguBJe4WUUCqnNjCRYUnP67zC5'],
+     'sigjeRLpeY8fmHBJP6W49PAC4pusTUUUTXA96ZEWAk3zojohiHYXMVHsEcphLRVAXNL5zeTLNL65V9eRcjAX3ySNNM64tKYJ'),
+    ('p2pk666QNz4G9f9wXU8tv7giEjEy81X4tp6ypeyHEiSEiMwqBEsJWQM',
+     ['p2sigQpptgPLHeLgntL5giZKwb6ZNnmQbhpiR5R2XshZLGYoKMRLJBnEzQfJDN9fFpAX7JT4TVWtALeT3FsadusDQAgiq4yTvC',
+      'p2sigh4JX86C5xERCRP9fCHEGQWsdZJhyJPAkVLr4VwZibryvoM5Mk1eQS9V8XGRZ6LPojbvc7jXbuYL7isWmQHnf7Mwmd31Kn',
+      'p2sigbFzAMD3fetws73T1PBBs8PGHSptDvEGYYTy6RZtENWg6wCeSUnjqYqPz9VWT2SD1VtUnVCzNHSaVpHKnnV3oYK63oHoJx',
+      'p2sigQEE5WqbZMJi1E6f7fJytL3BxwZoJg5yUCUcJy7XNZWKFWj6rSWvmuTGHKG2SYpppc9hWn1guUd5N1VZRM1KxnPK8cZrU8',
+      'p2sigpkbxprTFgd44LQKKZTRE7L4Mm6Qvdz57Hj5Cf7LiC6Hxz8pLaH5x5ezTQP9jXmcJhqqfTHs55NMXtGjGc4gVc3DUGnYMe',
+      'p2sigdZuFiLnmYsfW8ntfy7nygeZqDNptWYxdFUoyrkjejADZEem47PyRk69K2Mw4uZKc79B2FqgH49bD1yUfzUe8K1pnqHJ4S'],
+     'sigbwmKG7VaBxuQAngkfaf5cvUu4AexporL6h7i27SwA4PZPvs86jecGeygxYzDbEdgsrxmQy42nVG8RbQ4C2rNGck8Aj5rN'),
+    ('edpktsomPTFRruCKe5ZhVTRsbqpV27r5LwEZMKGk16mmqriM1N8ZiS',
+     ['edsigtiUXL7Qj6FP1aqLVgzUpjPG7pUY6TE5Cr2xyYKRq2XpvSjdSjtHKfvNhLwYYd2tb8xHbhnEgaYmFk77qneCP9TTGfGLvrX',
+      'edsigtgittSXoxoMTpCXFibeKTcpmA4LRFir9bxTDHJQAf8iBD5EDboE4H9ZYN2LpS7Csozu82rYFHbFfBhsdzgu7p8nw9W8JHH',
+      'edsigtu1Z9dDPgTC137B64vtiwDApGyAZa323ggYdcHtqN8eWNEDJSkdwVEWHkWDzX9LSgzmQE2dCR7wzR6f1CU2RM5iWujgc3M',
+      'edsigtpVvWzncwUqnWWLHWTtPhEtueN8ymbetrQ5YexC4EDdzdhDa3dmJC9CLJ2rF26r8YKeVo4WFRD3zsF1A1YfuyH7zY1msF7',
+      'edsigtcPFM7wGr4HuuUcoNa1qJkoZ9WtogmixRTFjCiYzsZu7dXUJjiWBRo8cfPdeLpjVsWfzqpRPUBu6ztwvqXoNvjDKQsV735',
+      'edsigtuyujxjxWn1si3zo8HpjyeEJ3nL5UiWV6WiCHH6jDpRiiyQSrHHBtjx2pBYAxB5UKH6AohjriHNoAddeSPunCxngY95dVJ'],
+     'sigjC62ZzVQWzxyvBnvu3XyutJW95dbQ9TJzntswtrMndZ4QGhwrirQBGNhucCRgA6FTHnJWqqaVzDgJcoYKgTA2eR5XZ6XL'),
+]
+SIG_ALTERED = ['01', '616264', '61626300', '0500 05'.replace(' ', '') + '00', 'ff' + SIG_MSGS[3][2:]]      # messages nobody signed
+SIG_KNOWN_MSGS = set(SIG_MSGS) | set(SIG_ALTERED)
+
+
+def sig_triples(code):
+    """the (key, signature, message) triples a CHECK_SIGNATURE of the program can meet: every key literal x signature literal x
+    message of the idiom's message set that occurs as a bytes literal (or is packed: `PUSH nat 5 ; PACK` is 0x050005)"""
+    keys, sigs, msgs = set(), set(), set()
+
+    def walk(x):
+        if isinstance(x, list):
+            for i, y in enumerate(x):
+                walk(y)
+                if (isinstance(y, dict) and y.get('prim') == 'PACK' and i and isinstance(x[i - 1], dict) and x[i - 1].get('prim') == 'PUSH'
+                        and 'int' in x[i - 1]['args'][1]):
+                    msgs.add((b'\x05' + forge_data(x[i - 1]['args'][1])).hex())
+        elif isinstance(x, dict):
+            if 'string' in x:
+                v = x['string']
+                if v[:4] in ('edpk', 'sppk', 'p2pk'):
+                    keys.add(v)
+                elif v[:5] in ('edsig', 'spsig', 'p2sig') or v[:3] == 'sig':
+                    sigs.add(v)
+            elif 'bytes' in x and x['bytes'].lower() in SIG_KNOWN_MSGS:
+                msgs.add(x['bytes'].lower())
+            for y in x.get('args', []):
+                walk(y)
+    walk(code)
+    return [(k, s, m) for k in sorted(keys) for s in sorted(sigs) for m in sorted(msgs & SIG_KNOWN_MSGS)]
+
+
 def comb_leaves(t):
     """component types along the right spine of a pair type (a non-pair is its own single leaf)"""
     out = []
@@ -329,6 +397,8 @@ class Gen:
             return {'string': r.choice(KEY_HASHES)}
         if p == 'key':
             return {'string': r.choice(KEYS)}
+        if p == 'signature':
+            return {'string': r.choice(r.choice(SIG_KEYS)[1])}
         if p == 'option':
             if r.random() < 0.35:
                 return {'prim': 'None'}
@@ -404,7 +474,7 @@ class Gen:
             'unit': {'prim': 'Unit'}, 'bool': {'prim': 'False'}, 'int': {'int': '0'}, 'nat': {'int': '0'}, 'mutez': {'int': '0'},
             'timestamp': {'int': '0'}, 'string': {'string': ''}, 'bytes': {'bytes': ''}, 'address': {'string': ADDRS[0]},
             'chain_id': {'string': CHAINS[0]}, 'option': {'prim': 'None'}, 'list': [], 'map': [], 'set': [],
-            'key_hash': {'string': KEY_HASHES[0]}, 'key': {'string': KEYS[0]},
+            'key_hash': {'string': KEY_HASHES[0]}, 'key': {'string': KEYS[0]}, 'signature': {'string': SIG_KEYS[0][1][0]},
         }
         if p in table:
             return table[p]
@@ -516,6 +586,7 @@ class Gen:
         add(2.2, 'CONTRACTS', lambda: self._contract_idiom(st))
         add(1.6, 'PACKING', lambda: self._pack_idiom(st))
         add(2.0, 'UNPACKING', lambda: self._unpack_idiom(st))
+        add(0.9, 'SIGNATURES', lambda: self._checksig_idiom(st))
         if not self.in_lambda:
             add(0.6, 'SELF', lambda: self._self(st))
         if depth > 0:
@@ -1255,6 +1326,43 @@ class Gen:
                                 (('map', ('int',), inner), [P('Elt', {'int': '1'}, self.gen_value(inner, 1)), P('Elt', {'int': '2'}, bad)])])
             data = b'\x05' + forge_data(expr)
         return [P('PUSH', P('bytes'), {'bytes': data.hex()}), P('UNPACK', ty_mich(t))], [('option', t)] + st
+
+
+    # ---- CHECK_SIGNATURE ------------------------------------------------------------------------------------------------
+    def _checksig_idiom(self, st):
+        """a key, a signature and a message of the corpus: the signed message (true), an altered or another message, another key of the
+        same curve, a key of another curve, the generic `sig…` spelling, the empty and a long message, a message made by PACK"""
+        r = self.rng
+        P = lambda prim, *args: {'prim': prim, 'args': list(args)} if args else {'prim': prim}
+        ki = r.randrange(len(SIG_KEYS))
+        key, sigs, generic = SIG_KEYS[ki]
+        mi = r.randrange(len(SIG_MSGS))
+        msg, sig = SIG_MSGS[mi], sigs[mi]
+        kind = r.choice(['valid', 'valid', 'valid', 'altered-message', 'other-message', 'other-key-same-curve', 'other-curve', 'generic', 'generic-wrong',
+                         'packed-message', 'empty-message', 'long-message'])
+        if kind == 'altered-message':
+            msg = r.choice(SIG_ALTERED)
+        elif kind == 'other-message':
+            msg = SIG_MSGS[(mi + 1) % len(SIG_MSGS)]
+        elif kind == 'other-key-same-curve':
+            key = SIG_KEYS[3 - ki][0] if ki in (0, 3) else SIG_KEYS[0][0]
+        elif kind == 'other-curve':
+            key = SIG_KEYS[(ki + 1) % 3][0]
+        elif kind in ('generic', 'generic-wrong'):
+            sig, msg = generic, ('616263' if kind == 'generic' else '616264')
+        elif kind == 'empty-message':
+            msg, sig = SIG_MSGS[0], sigs[0]
+        elif kind == 'long-message':
+            msg, sig = SIG_MSGS[5], sigs[5]
+        self.shape('CHECK_SIGNATURE ' + kind + (' (' + key[:2] + ')' if kind == 'valid' else ''))
+        self.note('CHECK_SIGNATURE')
+        if kind == 'packed-message':
+            push_msg = [P('PUSH', P('nat'), {'int': '5'}), P('PACK')]
+            sig = sigs[4]
+        else:
+            push_msg = [P('PUSH', P('bytes'), {'bytes': msg})]
+        code = push_msg + [P('PUSH', P('signature'), {'string': sig}), P('PUSH', P('key'), {'string': key}), P('CHECK_SIGNATURE')]
+        return code, [('bool',)] + st
 
     def _hash_idiom(self, st):
         """hash a pushed byte string (lengths around the block sizes of the five functions), sometimes twice"""
